@@ -496,6 +496,24 @@ theorem pass4_ok (p : String) (env : Env) (s : Schema) : AllOK p (pass4 p env s)
   | func _ => exact allOK_nil _
   | syntaxError _ _ _ => exact allOK_nil _
 
+theorem missingSelf_ok (p : String) (r : Rule) : AllOK p (missingSelf p r) := by
+  simp only [missingSelf]
+  split
+  · exact allOK_one (by okd)
+  · exact allOK_nil _
+
+theorem globalRef_ok (p : String) (env : Env) (s : Schema) (r : Rule) (n : String) (ds : List Diag)
+    (h : globalRef p env s r n = some ds) : AllOK p ds := by
+  simp only [globalRef] at h
+  split at h
+  · simp only [Option.some.injEq] at h; subst h
+    split
+    · exact allOK_nil _
+    · exact allOK_one (by okd)
+  · split at h
+    · simp only [Option.some.injEq] at h; subst h; exact allOK_nil _
+    · simp at h
+
 theorem callDiags_ok (p : String) (s : Schema) (r : Rule) (fn : String) (argc : Nat) : AllOK p (callDiags p s r fn argc) := by
   simp only [callDiags]
   split
@@ -506,7 +524,7 @@ theorem callDiags_ok (p : String) (s : Schema) (r : Rule) (fn : String) (argc : 
     · split
       · exact allOK_nil _
       · exact allOK_one (by okd)
-    · exact allOK_cons (by okd) (allOK_one (by okd))
+    · exact allOK_cons (by okd) (missingSelf_ok _ _)
 
 theorem typeRuleDiags_ok (p : String) (s : Schema) : AllOK p (typeRuleDiags p s) := by
   apply allOK_flatMap; intro t _
@@ -516,7 +534,7 @@ theorem typeRuleDiags_ok (p : String) (s : Schema) : AllOK p (typeRuleDiags p s)
   | call fn argc => exact callDiags_ok _ _ _ _ _
   | _ => exact allOK_nil _
 
-theorem entityPass5_ok (p : String) (s : Schema) (fuel : Nat) (e : Entity) : AllOK p (entityPass5 p s fuel e) := by
+theorem entityPass5_ok (p : String) (env : Env) (s : Schema) (fuel : Nat) (e : Entity) : AllOK p (entityPass5 p env s fuel e) := by
   refine allOK_append (allOK_append ?_ ?_) ?_
   · apply allOK_filterMap
     intro x hx d hd
@@ -556,13 +574,38 @@ theorem entityPass5_ok (p : String) (s : Schema) (fuel : Nat) (e : Entity) : All
       simp only [ruleItemDiags]
       split
       · exact allOK_nil _
-      · exact allOK_cons (by okd) (allOK_one (by okd))
+      · simp only [bareOutside]
+        split
+        next ds hg => exact allOK_append (globalRef_ok _ _ _ _ _ _ hg) (missingSelf_ok _ _)
+        · exact allOK_cons (by okd) (missingSelf_ok _ _)
     | badGroup an => exact allOK_cons (by okd) (allOK_one (by okd))
     | smallReal _ => exact allOK_nil _
 
-theorem pass5_ok (p : String) (s : Schema) : AllOK p (pass5 p s).diags := by
+theorem algDiags_ok (p : String) (env : Env) (s : Schema) : AllOK p (algDiags p env s) := by
+  apply allOK_flatMap; intro d _
+  cases d with
+  | func f =>
+    apply allOK_flatMap; intro r _
+    apply allOK_flatMap; intro it _
+    cases it with
+    | call fn argc =>
+      intro d hd
+      have := callDiags_ok p s { r with isWhere := false } fn argc d hd
+      exact this
+    | bareAttr n =>
+      simp only [algItemDiags]
+      split
+      · exact allOK_nil _
+      · split
+        next ds hg => exact globalRef_ok _ _ _ _ _ _ hg
+        · exact allOK_one (by okd)
+    | _ => exact allOK_nil _
+  | _ => exact allOK_nil _
+
+theorem pass5_ok (p : String) (env : Env) (s : Schema) : AllOK p (pass5 p env s).diags := by
   simp only [pass5]
-  exact allOK_append (typeRuleDiags_ok _ _) (allOK_flatMap _ _ (fun e _ => entityPass5_ok _ _ _ e))
+  exact allOK_append (allOK_append (typeRuleDiags_ok _ _) (allOK_flatMap _ _ (fun e _ => entityPass5_ok _ _ _ _ e)))
+    (algDiags_ok _ _ _)
 
 theorem parseSchemas_ok (p : String) : ∀ ss, AllOK p (parseSchemas p ss)
   | [] => by simp [parseSchemas, allOK_nil]
@@ -590,6 +633,6 @@ theorem resolveDiags_ok (f : File) : ∀ d ∈ (resolveDiags f).diags, ∃ p, OK
   · obtain ⟨x, hx, hd⟩ := hd
     simp only [List.mem_map] at hx
     obtain ⟨s, _, rfl⟩ := hx
-    exact ⟨_, pass5_ok _ s d hd⟩
+    exact ⟨_, pass5_ok _ _ s d hd⟩
 
 end StepModel.Express.Resolve
